@@ -388,7 +388,8 @@ impl<'a> Exec<'a> {
                 wsorted = a.vals.clone();
                 wsorted.sort_by(|x, y| x.0.partial_cmp(&y.0).unwrap());
             }
-            let eps2 = 64.0 * ULP * (mag + kappa * range);
+            // values the digest cannot tell apart: centroid means carry up to kappa accumulated roundings
+            let eps2 = 8.0 * tol_v;
             let mass = |val: f64| -> f64 {
                 if a.unit {
                     le(val + eps2) - lt(val - eps2)
